@@ -412,4 +412,314 @@ theorem llisten_stepR {cfg : Cfg} {G aL x : Nat} {b : Bus} {H : Int} {j : Nat} {
         omega
 
 
+/-! ## Phase Q0: the request to the listener is on the bus, the listener has not registered it yet -/
+
+theorem LoneTel.regSr_none {aL me : Nat} {t : Telegram} (h : LoneTel aL me t) (hg : aL < 128) (fl : Bool) :
+    regSr me t fl = none := by
+  rcases h with rfl | ⟨g, hg', hgm, rfl⟩
+  · cases fl <;> rfl
+  · rw [regSr_req me g aL hg' hg]
+    exact if_neg (fun h => hgm h.2)
+
+/-- The GAP request of `x` (address `aL`) to the listener (address `aH`), sent at `r`. -/
+def rqTx (x aL aH : Nat) (r : Int) : Transmission :=
+  { start := r, sender := x, bytes := statusRequestBytes aH aL, dropped := false }
+
+/-- **Request on the bus, not yet registered**: the claimant `x` awaits the reply (stamp `r + bits 66`); the log is
+the lone transmitter's, its last entry the request to the listener's address, none before it addressed to the
+listener; the listener `y` satisfies the listener condition with the request among the transmissions it has not
+consumed yet, and was last polled before the end of the request. -/
+structure HQ0 (cfg : Cfg) (G : Nat) (n : Net) (x y : Nat) (stx sty : NetStation) (r : Int) (r0 : TokenRing)
+    (hd : List Telegram) (dn rs : List Transmission) (lY : Int) (coll : Nat) (tl : Int) : Prop where
+  solo : Solo cfg n x stx (r + (cfg.b66 : Nat))
+  stx_st : stx.s.st = .claimToken (.scanAwait sty.s.p.address)
+  stx_gap : stx.s.gap = .doPoll sty.s.p.address
+  logR : LoneLogR cfg stx.s.p.address x n.bus
+  rsne : rs.getLast? = some (rqTx x stx.s.p.address sty.s.p.address r)
+  others : ∀ t ∈ rs.dropLast, t.bytes = tokenBytes stx.s.p.address stx.s.p.address ∨
+    ∃ g, g < 126 ∧ g ≠ sty.s.p.address ∧ t.bytes = statusRequestBytes g stx.s.p.address
+  gy : n.stations[y]? = some sty
+  yx : y ≠ x
+  ys : y < n.bus.seen.length
+  yl : y < n.stations.length
+  lis : LLOkX cfg G stx.s.p.address n.bus (r + (cfg.b66 : Nat) + (cfg.slot : Nat) + (cfg.P : Nat)) y sty r0 hd none dn rs lY coll
+  early : n.bus.seen.getD y 0 < r + ((cfg.ce 5 : Nat) : Int)
+  py : sty.s.p.rate = cfg.rate ∧ sty.s.p.slotBits = cfg.slotBits
+  starts : ∀ t ∈ n.bus.txs, t.start ≤ tl
+  seens : n.bus.seen.getD x 0 ≤ tl ∧ n.bus.seen.getD y 0 ≤ tl
+
+theorem mem_dropLast_cons {α : Type} (a t : α) (l : List α) (h : t ∈ l.dropLast) : t ∈ (a :: l).dropLast := by
+  cases l with
+  | nil => cases h
+  | cons b l' => exact List.mem_cons_of_mem _ h
+
+theorem mem_dropLast_of_drop {α : Type} (t : α) : ∀ (k : Nat) (l : List α), t ∈ (l.drop k).dropLast → t ∈ l.dropLast := by
+  intro k
+  induction k with
+  | zero => intro l h; simpa using h
+  | succ k ih =>
+    intro l h
+    cases l with
+    | nil => cases h
+    | cons a l' => exact mem_dropLast_cons a t l' (ih l' (by simpa using h))
+
+theorem mem_dropLast_of_take {α : Type} (t : α) : ∀ (l : List α) (k : Nat), k < l.length → t ∈ l.take k → t ∈ l.dropLast := by
+  intro l
+  induction l with
+  | nil => intro k hk; simp at hk
+  | cons a l' ih =>
+    intro k hk ht
+    cases k with
+    | zero => simp at ht
+    | succ k =>
+      have hk' : k < l'.length := by simpa using hk
+      rw [List.take_succ_cons] at ht
+      cases l' with
+      | nil => simp at hk'
+      | cons b l'' =>
+        rcases List.mem_cons.1 ht with rfl | ht
+        · exact List.mem_cons_self ..
+        · exact List.mem_cons_of_mem _ (ih k hk' ht)
+
+theorem LLOkX.other {cfg : Cfg} {G aL : Nat} {b : Bus} {H : Int} {j : Nat} {st : NetStation} {r0 : TokenRing}
+    {hd : List Telegram} {sr : Option Nat} {dn rs : List Transmission} {l : Int} {coll : Nat}
+    (h : LLOkX cfg G aL b H j st r0 hd sr dn rs l coll) (i : Nat) (now : Int) (hij : i ≠ j) :
+    LLOkX cfg G aL { b with seen := b.seen.set i now } H j st r0 hd sr dn rs l coll := by
+  have e : ({ b with seen := b.seen.set i now } : Bus).seen.getD j 0 = b.seen.getD j 0 := seen_set_other b i j now hij
+  unfold LLOkX at h ⊢
+  rw [e]
+  exact h
+
+theorem cEnd_rq (cfg : Cfg) (x aL aH : Nat) (r : Int) : cEnd cfg (rqTx x aL aH r) = r + ((cfg.ce 5 : Nat) : Int) := by
+  unfold cEnd rqTx
+  simp only [statusRequestBytes_length]
+
+/-- **Phase Q0, the claimant is polled**: its slot time has not run out; nothing happens. -/
+theorem hq0_claimant {cfg : Cfg} {G : Nat} {n : Net} {x y : Nat} {stx sty : NetStation} {r : Int} {r0 : TokenRing}
+    {hd : List Telegram} {dn rs : List Transmission} {lY : Int} {coll : Nat} {tl : Int}
+    (h : HQ0 cfg G n x y stx sty r r0 hd dn rs lY coll tl) (hok : cfg.Ok) (now : Int) (htl : tl ≤ now)
+    (hown : n.bus.seen.getD x 0 < now) (hgy : now ≤ n.bus.seen.getD y 0 + (cfg.P : Nat)) :
+    ∃ n' c, n.poll x now = (n', [], some (.ok c)) ∧ c.tx = none ∧ HQ0 cfg G n' x y stx sty r r0 hd dn rs lY coll now := by
+  have hr := hok.rate
+  have hmar := hok.margin
+  have hc5 := cfg.ce5 hr
+  have hs := h.solo
+  have hearly := h.early
+  have hno : stx.s.st ≠ .offline ∧ stx.s.st ≠ .passiveIdle := by rw [h.stx_st]; simp
+  have hup : upSt stx { s := stx.s, apps := stx.apps, rx := [] } = stx := by unfold upSt; rw [← hs.rx]
+  have hxy : x ≠ y := Ne.symm h.yx
+  -- the poll
+  have hpoll : ∃ n', n.poll x now = (n', [], some (.ok { s := stx.s, apps := stx.apps, rx := [] })) ∧
+      Solo cfg n' x stx (r + (cfg.b66 : Nat)) ∧ n'.bus.seen.getD x 0 = now := by
+    by_cases hle : now ≤ r + (cfg.b66 : Nat)
+    · exact solo_ongoing hs hr now hown hle hno.1 hno.2
+    · have hdw : dispatch { s := stx.s, apps := stx.apps, rx := [] } now = .ok { s := stx.s, apps := stx.apps, rx := [] } := by
+        unfold dispatch
+        simp only [h.stx_st]
+        rw [claimAwait_exact _ now (r + (cfg.b66 : Nat)) 1 sty.s.p.address h.stx_st rfl hs.stamp h.stx_gap
+          (hs.inv.await2 _ h.stx_st).2]
+        rw [if_neg (by rw [hs.slot]; omega)]
+      obtain ⟨n', hp, hS, hseen⟩ := solo_step hs hr now hown (by omega) _ hno.1 hno.2 hdw (r + (cfg.b66 : Nat)) hs.son rfl rfl
+        hs.stamp (Int.le_refl _) (fun b hb => by cases hb)
+      rw [hup] at hS
+      exact ⟨n', hp, hS, hseen⟩
+  obtain ⟨n', hp, hS, hseen⟩ := hpoll
+  obtain ⟨hbus, st0, hst0, hset, -⟩ := Net.poll_bus n x now n' [] _ hp
+  rw [hs.deliver hr now (Int.le_of_lt hown)] at hbus
+  simp only at hbus
+  rw [hs.gx] at hst0
+  cases hst0
+  rw [hup] at hset
+  have hsy : n'.bus.seen.getD y 0 = n.bus.seen.getD y 0 := by rw [hbus]; exact seen_set_other n.bus x y now hxy
+  refine ⟨n', _, hp, rfl, ⟨hS, h.stx_st, h.stx_gap, ?_, h.rsne, h.others, ?_, h.yx, ?_, ?_, ?_, ?_, ?_, ?_, ?_⟩⟩
+  · rw [hbus]
+    exact ⟨h.logR.rate, h.logR.corrupt, h.logR.chained, h.logR.live, h.logR.own, h.logR.kinds⟩
+  · rw [hset, List.getElem?_set_ne hxy]; exact h.gy
+  · rw [hbus]; simp only [List.length_set]; exact h.ys
+  · rw [hset, List.length_set]; exact h.yl
+  · rw [hbus]; exact h.lis.other x now hxy
+  · rw [hsy]; exact hearly
+  · exact h.py
+  · rw [hbus]; exact fun t ht => Int.le_trans (h.starts t ht) htl
+  · rw [hseen, hsy]; exact ⟨Int.le_refl _, Int.le_trans h.seens.2 htl⟩
+
+/-! ## Phase Q1: the listener has registered the request and waits for the synchronisation pause -/
+
+/-- **Request registered** at `h1`: the listener `y` has consumed everything, remembers the requester and will
+answer after the pause; the claimant still awaits the reply. -/
+structure HQ1 (cfg : Cfg) (n : Net) (x y : Nat) (stx sty : NetStation) (r h1 : Int) (coll : Nat) (tl : Int) : Prop where
+  solo : Solo cfg n x stx (r + (cfg.b66 : Nat))
+  stx_st : stx.s.st = .claimToken (.scanAwait sty.s.p.address)
+  stx_gap : stx.s.gap = .doPoll sty.s.p.address
+  soloY : Solo cfg n y sty h1
+  sty_st : sty.s.st = .listenToken (some stx.s.p.address) coll
+  yx : y ≠ x
+  reg : r + ((cfg.ce 5 : Nat) : Int) ≤ h1 ∧ h1 < r + ((cfg.ce 5 : Nat) : Int) + (cfg.P : Nat)
+  tto : cfg.slot + 3 * cfg.P + cfg.ce 0 + 2 ≤ sty.s.p.tokenLostTimeout
+  allx : ∀ t ∈ n.bus.txs, t.sender = x
+  starts : ∀ t ∈ n.bus.txs, t.start ≤ tl
+  seens : n.bus.seen.getD x 0 ≤ tl ∧ n.bus.seen.getD y 0 ≤ tl
+
+/-- **Phase Q0, the listener is polled**: it consumes what has arrived; if the request has arrived completely it
+is registered (phase Q1), otherwise phase Q0 goes on. -/
+theorem hq0_listener {cfg : Cfg} {G : Nat} {n : Net} {x y : Nat} {stx sty : NetStation} {r : Int} {r0 : TokenRing}
+    {hd : List Telegram} {dn rs : List Transmission} {lY : Int} {coll : Nat} {tl : Int}
+    (h : HQ0 cfg G n x y stx sty r r0 hd dn rs lY coll tl) (hok : cfg.Ok) (hG : cfg.slot + 3 * cfg.P ≤ G) (now : Int)
+    (htl : tl ≤ now) (hown : n.bus.seen.getD y 0 < now) (hgy : now ≤ n.bus.seen.getD y 0 + (cfg.P : Nat)) :
+    ∃ n' inc c, n.poll y now = (n', inc, some (.ok c)) ∧ c.tx = none ∧
+      ((∃ hd' dn' rs' lY', HQ0 cfg G n' x y stx (upSt sty c) r r0 hd' dn' rs' lY' coll now) ∨
+       HQ1 cfg n' x y stx (upSt sty c) r now coll now) := by
+  have hr := hok.rate
+  have hmar := hok.margin
+  have hc5 := cfg.ce5 hr
+  have hc0 := cfg.ce_pos hr 0
+  have hs := h.solo
+  have haL : stx.s.p.address < 126 := by have := hs.inv.addr; have := hs.inv.hsa; omega
+  have hL := h.lis
+  have htxs : n.bus.txs = dn ++ rs := hL.2.2.2.2.2.2.2.1
+  have hrsne : rs ≠ [] := by intro e; have := h.rsne; rw [e] at this; cases this
+  have hlastT : n.bus.txs.getLast? = some (rqTx x stx.s.p.address sty.s.p.address r) := by
+    rw [htxs, List.getLast?_append, h.rsne]; rfl
+  obtain ⟨inc, c, hdv, hpoll, htx, hp, hres⟩ := llisten_stepR hL h.logR hr haL h.yx h.ys now hown
+    (by have := h.early; omega) (fun t ht => Int.le_trans (h.starts t ht) htl)
+    (by
+      intro t ht
+      rw [hlastT] at ht
+      have := Option.some.inj ht
+      subst this
+      rw [cEnd_rq]
+      omega)
+  obtain ⟨hon, hal, -⟩ := hL
+  have hpoll' : sty.s.poll sty.apps now (Bus.transmitting { n.bus with seen := n.bus.seen.set y now } y now) (sty.rx ++ inc) = .ok c := by
+    rw [transmitting_seen]; exact hpoll
+  have hpe := Net.poll_eq n y now sty _ inc c h.gy hal hon hdv hpoll'
+  rw [htx] at hpe
+  have hsx : ({ n.bus with seen := n.bus.seen.set y now } : Bus).seen.getD x 0 = n.bus.seen.getD x 0 :=
+    seen_set_other n.bus y x now h.yx
+  have haddr : (upSt sty c).s.p.address = sty.s.p.address := by show c.s.p.address = _; rw [hp]
+  have hsoloX : Solo cfg { bus := { n.bus with seen := n.bus.seen.set y now }, stations := n.stations.set y (upSt sty c) } x stx
+      (r + (cfg.b66 : Nat)) :=
+    ⟨hs.rate, hs.drops, hs.corrupt, hs.chained, hs.live, hs.pos, (by simp only; rw [hsx]; exact hs.done), hs.ends,
+      by simp only [List.length_set]; exact hs.xl, by simp only [List.length_set]; exact hs.xs,
+      by simp only; rw [List.getElem?_set_ne h.yx]; exact hs.gx, hs.online, hs.alive, hs.inv, hs.son, hs.rx, hs.stamp,
+      hs.prate, hs.pslot⟩
+  have hlogR' : LoneLogR cfg stx.s.p.address x { n.bus with seen := n.bus.seen.set y now } :=
+    ⟨h.logR.rate, h.logR.corrupt, h.logR.chained, h.logR.live, h.logR.own, h.logR.kinds⟩
+  have hseensNew : ({ n.bus with seen := n.bus.seen.set y now } : Bus).seen.getD x 0 ≤ now ∧
+      ({ n.bus with seen := n.bus.seen.set y now } : Bus).seen.getD y 0 ≤ now := by
+    rw [hsx, seen_set_self _ _ _ h.ys]
+    exact ⟨Int.le_trans h.seens.1 htl, Int.le_refl _⟩
+  have hposrs : ∀ t ∈ rs, 0 < t.bytes.length := fun t ht => (h.logR.wire haL t (by rw [htxs]; exact List.mem_append_right _ ht)).2.2.1
+  have hcrs : CChained cfg rs := by
+    have := h.logR.chained
+    rw [htxs] at this
+    exact (List.pairwise_append.1 this).2.1
+  refine ⟨_, inc, c, hpe, htx, ?_⟩
+  -- the listener condition after the poll tells whether the request is complete
+  have stillQ0 : ∀ (hd' : List Telegram) (dn' rs' : List Transmission) (lY' : Int),
+      LLOkX cfg G stx.s.p.address { n.bus with seen := n.bus.seen.set y now }
+        (r + (cfg.b66 : Nat) + (cfg.slot : Nat) + (cfg.P : Nat)) y (upSt sty c) r0 hd' none dn' rs' lY' coll →
+      rs'.getLast? = some (rqTx x stx.s.p.address sty.s.p.address r) →
+      (∀ t ∈ rs'.dropLast, t.bytes = tokenBytes stx.s.p.address stx.s.p.address ∨
+        ∃ g, g < 126 ∧ g ≠ sty.s.p.address ∧ t.bytes = statusRequestBytes g stx.s.p.address) →
+      CChained cfg rs' → (∀ t ∈ rs', 0 < t.bytes.length) →
+      HQ0 cfg G { bus := { n.bus with seen := n.bus.seen.set y now }, stations := n.stations.set y (upSt sty c) } x y stx
+        (upSt sty c) r r0 hd' dn' rs' lY' coll now := by
+    intro hd' dn' rs' lY' hX hlast hoth hch hpos
+    have hearly' : ({ n.bus with seen := n.bus.seen.set y now } : Bus).seen.getD y 0 < r + ((cfg.ce 5 : Nat) : Int) := by
+      have hhead := hX.2.2.2.2.2.2.2.2.2.2.2.1
+      have := rs_end_after cfg rs' _ hch hpos hhead (rqTx x stx.s.p.address sty.s.p.address r) (List.mem_of_getLast? hlast)
+      rw [cEnd_rq] at this
+      exact this
+    exact ⟨hsoloX, by rw [haddr]; exact h.stx_st, by rw [haddr]; exact h.stx_gap, hlogR', by rw [haddr]; exact hlast,
+      by rw [haddr]; exact hoth, List.getElem?_set_self h.yl, h.yx, by simp only [List.length_set]; exact h.ys,
+      by simp only [List.length_set]; exact h.yl, hX, hearly', by show c.s.p.rate = _ ∧ c.s.p.slotBits = _; rw [hp]; exact h.py,
+      fun t ht => Int.le_trans (h.starts t ht) htl, hseensNew⟩
+  rcases hres with hX | ⟨k, d, hk1, hdm, hfl, hlastd, hX⟩
+  · exact .inl ⟨hd, dn, rs, _, stillQ0 hd dn rs _ hX h.rsne h.others hcrs hposrs⟩
+  · by_cases hdr : rs.drop k = []
+    · -- the request has been consumed: registered
+      right
+      obtain ⟨pre, t, hdpt⟩ := hlastd hdr
+      have hrsk : rs.take k = rs := take_of_drop_nil rs k hdr
+      have ht : t = reqTel sty.s.p.address stx.s.p.address := by
+        have e1 : (d.map Prod.fst).getLast? = ((rs.take k).map telOf).getLast? := by rw [hdm]
+        rw [hdpt, hrsk] at e1
+        simp only [List.map_append, List.map_cons, List.map_nil, List.getLast?_append, List.getLast?_singleton,
+          Option.some_or, List.getLast?_map, h.rsne, Option.map_some] at e1
+        have := Option.some.inj e1
+        rw [this]
+        have hH126 : sty.s.p.address < 126 := by
+          have := hs.inv.gap _ h.stx_gap; have := hs.inv.hsa; omega
+        exact telOf_req _ _ _ (by omega) (by omega) rfl
+      have hreg : lastReg sty.s.p.address d = some stx.s.p.address := by
+        unfold lastReg
+        rw [hdpt, List.getLast?_append, List.getLast?_singleton]
+        simp only [Option.some_or]
+        rw [ht, regSr_req _ _ _ (by have := hs.inv.gap _ h.stx_gap; have := hs.inv.hsa; omega) (by omega)]
+        simp
+      rw [hreg, hdr] at hX
+      obtain ⟨x1, x2, x3, x4, x5, x6, x7, x8, x9, x10, x11, x12, x13, x14, x15, x16⟩ := hX
+      have hdn' : ({ n.bus with seen := n.bus.seen.set y now } : Bus).txs = dn ++ rs.take k := by
+        have := x8; simpa using this
+      refine ⟨hsoloX, by rw [haddr]; exact h.stx_st, by rw [haddr]; exact h.stx_gap, ?_, x15, h.yx, ?_, ?_, ?_,
+        fun t ht => Int.le_trans (h.starts t ht) htl, hseensNew⟩
+      · refine ⟨hs.rate, hs.drops, hs.corrupt, hs.chained, hs.live, hs.pos, ?_, ?_, by simp only [List.length_set]; exact h.yl,
+          by simp only [List.length_set]; exact h.ys, List.getElem?_set_self h.yl, x1, x2, x3, x4, ?_, x13,
+          by show c.s.p.rate = _; rw [hp]; exact h.py.1, by show c.s.p.slotBits = _; rw [hp]; exact h.py.2⟩
+        · intro o ho
+          right
+          have : o ∈ dn ++ rs.take k := by rw [← hdn']; exact ho
+          exact x9 o (by simpa using this)
+        · intro o ho hso
+          exfalso
+          have := h.logR.own o ho
+          rw [this] at hso
+          exact h.yx hso.symm
+        · have := x10; simpa [arrived] using this
+      · have hnowge : r + ((cfg.ce 5 : Nat) : Int) ≤ now := by
+          have hm : rqTx x stx.s.p.address sty.s.p.address r ∈ dn ++ rs.take k := by
+            rw [hrsk]; exact List.mem_append_right _ (List.mem_of_getLast? h.rsne)
+          have := x9 _ (by simpa using hm)
+          rw [cEnd_rq, seen_set_self _ _ _ h.ys] at this
+          exact this
+        have := h.early
+        exact ⟨hnowge, by omega⟩
+      · have := x6; omega
+      · exact h.logR.own
+    · -- the request is still incomplete
+      left
+      have hklt : k < rs.length := by
+        rcases Nat.lt_or_ge k rs.length with h' | h'
+        · exact h'
+        · exact absurd (List.drop_eq_nil_of_le h') hdr
+      have hlast' : (rs.drop k).getLast? = some (rqTx x stx.s.p.address sty.s.p.address r) := by
+        rw [List.getLast?_drop, if_neg (by omega)]; exact h.rsne
+      have hnone : lastReg sty.s.p.address d = none := by
+        unfold lastReg
+        cases hg : d.getLast? with
+        | none => rfl
+        | some p =>
+          obtain ⟨t, fl⟩ := p
+          simp only
+          have hmem : t ∈ d.map Prod.fst := List.mem_map_of_mem (f := Prod.fst) (List.mem_of_getLast? hg)
+          rw [hdm] at hmem
+          obtain ⟨t', ht', e⟩ := List.mem_map.1 hmem
+          have hdl := mem_dropLast_of_take t' rs k hklt ht'
+          have hk' := h.others t' hdl
+          have hlt : LoneTel stx.s.p.address sty.s.p.address (telOf t') := by
+            rcases hk' with hb | ⟨g, hg1, hg2, hb⟩
+            · have e2 : telOf t' = tokTel [stx.s.p.address] stx.s.p.address :=
+                telOf_token t' _ [stx.s.p.address] (by rw [cycSucc_single]; exact hb)
+              rw [e2]; unfold tokTel; rw [cycSucc_single]; exact .inl rfl
+            · rw [telOf_req t' g _ (by omega) (by omega) hb]; exact .inr ⟨g, by omega, hg2, rfl⟩
+          rw [← e]
+          exact hlt.regSr_none (by omega) fl
+      rw [hnone] at hX
+      refine ⟨_, _, _, _, stillQ0 _ _ _ _ hX hlast' (fun t ht => h.others t (mem_dropLast_of_drop t k rs ht)) ?_ ?_⟩
+      · have : rs = rs.take k ++ rs.drop k := (List.take_append_drop _ _).symm
+        rw [this] at hcrs
+        exact (List.pairwise_append.1 hcrs).2.1
+      · exact fun t ht => hposrs t (List.mem_of_mem_drop ht)
+
 end PV
